@@ -79,6 +79,29 @@ def _nontrivial(case):
     return False
 
 
+def _raised_in_dut(exc):
+    """True when the exception was raised while code of the library under test was executing (the
+    innermost frame that belongs to neither the interpreter's own libraries nor third-party packages is
+    a file of /repo's `luna` package) - e.g. an elaboration error for a configuration the property
+    quantifies over.  An exception whose innermost such frame is harness code (wrong call of a changed
+    API, a bug of ours) is an infrastructure error instead."""
+    try:
+        from . import sim
+        root = os.path.realpath(sim.REPO) + os.sep
+    except Exception:
+        return False
+    tb = exc.__traceback__
+    own = None
+    while tb is not None:
+        fn = os.path.realpath(tb.tb_frame.f_code.co_filename)
+        if fn.startswith(root):
+            own = "dut"
+        elif fn.startswith(os.path.realpath(VERIF) + os.sep):
+            own = "harness"
+        tb = tb.tb_next
+    return own == "dut"
+
+
 def _worker(args):
     modname, descs, want_trace = args
     mod = __import__(modname, fromlist=["x"])
@@ -88,8 +111,8 @@ def _worker(args):
         t = time.time()
         try:
             c = mod.run_case(d)
-        except Exception:
-            res.append({"desc": d, "error": traceback.format_exc()})
+        except Exception as e:
+            res.append({"desc": d, "error": traceback.format_exc(), "in_dut": _raised_in_dut(e)})
             cases.append(None)
             continue
         cases.append(c)
@@ -319,12 +342,22 @@ def main(mod, argv=None):
     descs = load_corpus(prop) + list(mod.gen_cases(tier, rng))
     results = run_cases(mod, descs, nproc=a.jobs or None)
 
-    infra = [r for r in results if r.get("error")]
-    if infra:
-        print("INFRASTRUCTURE ERROR in %d case(s); first:\n%s" % (len(infra), infra[0]["error"]))
-        print(json.dumps(infra[0]["desc"])[:500])
-        return 2
+    errored = [r for r in results if r.get("error")]
+    infra = [r for r in errored if not r.get("in_dut")]
+    dut_errors = [r for r in errored if r.get("in_dut")]
+    results = [r for r in results if not r.get("error")]
+    # the library under test raised while being built / simulated for a configuration the property
+    # quantifies over: that configuration is a concrete failing input
+    for r in dut_errors:
+        r.setdefault("failures", []).append({
+            "sig": "dut-raises", "what": "the gateware cannot be elaborated/simulated for this case: "
+            + r["error"].strip().splitlines()[-1][:300], "traceback": r["error"][-1500:]})
+        r.setdefault("cycles", 0)
+        results.append(r)
 
+    if infra and not dut_errors:
+        # decide on the other cases first: a violation found there stands; otherwise this run is inconclusive
+        pass
     violations = []   # (failure, result)
     known_hits = {}
     for r in results:
@@ -334,6 +367,10 @@ def main(mod, argv=None):
             else:
                 violations.append((f, r))
     disagreements = [r for r in results if r.get("disagree")]
+    if infra and not violations:
+        print("INFRASTRUCTURE ERROR in %d case(s); first:\n%s" % (len(infra), infra[0]["error"]))
+        print(json.dumps(infra[0]["desc"])[:500])
+        return 2
 
     extra_fail = []
     if hasattr(mod, "extra_checks"):
@@ -495,6 +532,10 @@ def replay(mod, path):
         leanrun.lake_build([leanrun.exe_name(mod.DRIVER)] if getattr(mod, "DRIVER", None) else [])
         res = run_cases(mod, [desc], nproc=1)
     r = res[0]
+    if r.get("error") and r.get("in_dut"):
+        print("the gateware still raises for this case:", r["error"].strip().splitlines()[-1][:300])
+        print("VIOLATION property=%s replay=%s" % (prop, os.path.relpath(path, VERIF)))
+        return 1
     if r.get("error"):
         print(r["error"])
         return 2
